@@ -5,10 +5,10 @@
 n=$1; p=$2; demo=$3
 wt=/tmp/wt/confirm-$n
 git -C /repo worktree remove --force $wt 2>/dev/null
-/root/flexwt/mkwt.sh $wt >/dev/null 2>&1
+/verif/tools/mkwt.sh $wt >/dev/null 2>&1
 if ! git -C $wt apply $p 2>/dev/null; then echo "$n: PATCH-DOES-NOT-APPLY"; git -C /repo worktree remove --force $wt; exit 1; fi
-t=$(/root/flexwt/runtests.sh $wt 2>&1 | tr '\n' ' ')
-case "$t" in *"PASS:  257"*) ;; *) t=$(/root/flexwt/runtests.sh $wt 2>&1 | tr '\n' ' ');; esac
+t=$(/verif/tools/runtests.sh $wt 2>&1 | tr '\n' ' ')
+case "$t" in *"PASS:  257"*) ;; *) t=$(/verif/tools/runtests.sh $wt 2>&1 | tr '\n' ' ');; esac
 bash $demo $wt >/tmp/wt/confirm-$n.mut.log 2>&1; dm=$?
 bash $demo /repo >/tmp/wt/confirm-$n.base.log 2>&1; db=$?
 echo "$n: suite=[$t] demo_on_mutant=$dm demo_on_unchanged=$db"
